@@ -126,6 +126,19 @@ def ex_proofs(repo):
     ]
 
 
+def ex_sbp(repo):
+    s = Source(repo, PEERS)
+    b = Source(repo, SBP)
+    ei = b.method(r"^impl<'a> SendBlocksProofProcess<'a> \{", 'execute_internally', wrap="impl<'a> SendBlocksProofProcess<'a>")
+    ei.sub(r'hashes\.to_vec\(\)\.pack\(\)', 'hashes.mto_vec().pack()')
+    ei.sub(r'\.collect::<Vec<_>>\(\)(\s*)\.choose\(', r'.collect::<RefVec<_>>()\1.choose(')
+    return common.status_code(repo) + [
+        s.item(r'^pub\(crate\) struct BlocksProofRequest', attrs=True), s.item(r'^impl BlocksProofRequest \{'),
+        s.method(r'^impl Peers \{', 'mark_matched_blocks_proved', wrap='impl Peers'),
+        b.item(r'^pub\(crate\) fn verify_extra_hash'), ei,
+    ]
+
+
 def obligations():
     return [
         KModelOb('O2.6-body-semantic', 'syncarm', 'send_block_ok', 'SendBlock arm (real text) over a model of ckb-types Block / BlockView (into_view RESETS the header roots, '
@@ -133,6 +146,14 @@ def obligations():
                  'matched blocks with their committed body are indexed, once, after their pending record is consumed, then the script numbers are raised',
                  common.send_block_arm, '<=2 matched hashes in the earliest record (+ an optional later record), arbitrary incoming block over 3 header ids; '
                  'transactions root / extra hash uninterpreted', timeout=1500, mem_gb=12, min_covers=2, weight=5),
+        KModelOb('O2.3-blocks-proof-semantic', 'sbp', 'blocks_proof', 'SendBlocksProofProcess::execute_internally (real text, with the real BlocksProofRequest, '
+                 'mark_matched_blocks_proved and verify_extra_hash): a header is stored / a matched block marked proved / a GetBlocks sent only for RECEIVED headers of a reply that '
+                 'matches the outstanding request (last hash, received + missing = requested), whose headers all pass PoW, the MMR verification (called on exactly these '
+                 'headers) and - V1 - the extra-hash commitment; each header is stored with its own extension; missing marks only for hashes reported missing; a rejected '
+                 'reply leaves no effect; the new-last-state reply only releases the in-flight fetches', ex_sbp,
+                 '<=2 requested hashes over 4 identities, <=2 received headers, <=2 missing, <=2 matched blocks, 2 peers; PoW / MMR verdicts arbitrary',
+                 cuts=['message reader, protocol object, peer table, store -> models with a ghost effect log', 'textual adaptations: hashes.to_vec() -> hashes.mto_vec() (no heap copy); .collect::<Vec<_>>().choose -> .collect::<RefVec<_>>().choose (vector of references)'],
+                 timeout=2400, mem_gb=16, min_covers=2, weight=6),
         MirOb('O2.3-blocks-proof-gates', 'SendBlocksProofProcess::execute_internally: add_fetched_header / mark_matched_blocks_proved / '
               'update_blocks_request / remove_fetching_header only with an outstanding request, the requested last hash, check_block_hashes, '
               'PoW Ok and verify_mmr_proof Ok; nothing after a failed check', r'send_blocks_proof\.rs:\d+:\d+: \d+:\d+>::execute_internally\(',
